@@ -249,6 +249,11 @@ class Body:
                     tags[l] = rv["variant"]
                 elif rv["k"] == "use" and rv["ops"][0].get("k") in ("copy", "move") and not rv["ops"][0]["pl"]["p"] and rv["ops"][0]["pl"]["l"] in tags:
                     tags[l] = tags[rv["ops"][0]["pl"]["l"]]
+                elif rv["k"] == "use" and rv["ops"][0].get("k") == "const" and rv["ops"][0].get("ty") == "bool" and rv["ops"][0].get("val") in ("true", "false"):
+                    tags[l] = ("bool", rv["ops"][0]["val"] == "true")       # a literal flag (e.g. the argument of an inlined `observe(true)`)
+                elif rv["k"] == "unop" and rv.get("op") == "Not" and rv["ops"][0].get("k") in ("copy", "move") and not rv["ops"][0]["pl"]["p"] \
+                        and isinstance(tags.get(rv["ops"][0]["pl"]["l"]), tuple) and tags[rv["ops"][0]["pl"]["l"]][0] == "bool":
+                    tags[l] = ("bool", not tags[rv["ops"][0]["pl"]["l"]][1])
                 elif rv["k"] == "discr" and not rv["pl"]["p"] and isinstance(tags.get(rv["pl"]["l"]), str):
                     tags[l] = ("discr", tags[rv["pl"]["l"]])
                 else:
@@ -271,6 +276,10 @@ class Body:
                 dt = tags.get(dop["pl"]["l"]) if dop.get("k") in ("copy", "move") and not dop["pl"]["p"] else None
                 if isinstance(dt, tuple) and dt[0] == "discr":
                     want = 0 if dt[1] in ZERO else 1
+                    hit = [a[1] for a in t["arms"] if int(a[0]) == want]
+                    succs = hit if hit else [t["otherwise"]]
+                elif isinstance(dt, tuple) and dt[0] == "bool":
+                    want = 1 if dt[1] else 0
                     hit = [a[1] for a in t["arms"] if int(a[0]) == want]
                     succs = hit if hit else [t["otherwise"]]
             nst = tuple(sorted(tags.items(), key=lambda kv: kv[0]))
